@@ -148,11 +148,10 @@ def Verdict.toString : Verdict → String
 /-- The judgement applied to navis' `(vect, alpha)` of one point.  A neighbourhood whose points all coincide (trace `0`) has no
 principal axis; the property then only demands a unit vector and `alpha = 0` (the guarded division). -/
 def judge (nb : List P3) (v : P3) (a εu εv εa : Rat) : Verdict :=
-  let A := nbInertia nb
   if !unitB v εu then .badUnit
-  else if A.trace = 0 then (if a = 0 then .degenerate else .badAlphaDegenerate)
-  else if !axisOKB A v εv then .badAxis
-  else if !alphaOKB A (rayleigh A v) a εa then .badAlpha
+  else if (nbInertia nb).trace = 0 then (if a = 0 then .degenerate else .badAlphaDegenerate)
+  else if !axisOKB (nbInertia nb) v εv then .badAxis
+  else if !alphaOKB (nbInertia nb) (rayleigh (nbInertia nb) v) a εa then .badAlpha
   else .ok
 
 /-! ## `neuron2tangents`: judging the normalised vector and the length -/
@@ -209,6 +208,18 @@ def hugsB (off un : P3) (tol : Rat) (q : P3) (v : I3) : Bool :=
 /-- Every surface vertex is within half a voxel (Chebyshev, per axis in voxel units) of a filled voxel. -/
 def surfaceHugsB (off un : P3) (tol : Rat) (V : List P3) (F : List I3) : Bool :=
   V.all fun q => F.any fun v => hugsB off un tol q v
+
+/-- The (at most eight) voxels that can hug `q` when `tol < ½`: per axis `⌊t⌋` and `⌊t⌋ + 1` with `t = (q − offset)/un`. -/
+def hugCandidates (off un : P3) (q : P3) : List I3 :=
+  let fx := ((q.x - off.x) / un.x).floor
+  let fy := ((q.y - off.y) / un.y).floor
+  let fz := ((q.z - off.z) / un.z).floor
+  [⟨fx, fy, fz⟩, ⟨fx + 1, fy, fz⟩, ⟨fx, fy + 1, fz⟩, ⟨fx + 1, fy + 1, fz⟩,
+   ⟨fx, fy, fz + 1⟩, ⟨fx + 1, fy, fz + 1⟩, ⟨fx, fy + 1, fz + 1⟩, ⟨fx + 1, fy + 1, fz + 1⟩]
+
+/-- `surfaceHugsB` evaluated through the candidate voxels (what the driver runs; sound w.r.t. `surfaceHugsB`). -/
+def surfaceHugsFastB (off un : P3) (tol : Rat) (V : List P3) (F : List I3) : Bool :=
+  V.all fun q => (hugCandidates off un q).any fun v => F.contains v && hugsB off un tol q v
 
 /-- Every surface vertex lies within the grid's extent `[offset − un/2, offset + (shape − 1)·un + un/2]` (± `tol·un`). -/
 def surfaceInExtentB (off un : P3) (sh : I3) (tol : Rat) (V : List P3) : Bool :=
